@@ -20,7 +20,7 @@ const CALLERS: &[&str] = &["deployer", "other-account-same-salt", "deployer-unus
 const CANON: &[&str] = &["registered", "unregistered-token", "payer-no-auth", "payer-stranger-auth"];
 const DESTS: &[&str] = &["trusted", "never-trusted", "removed", "hub-chain"];
 const GAS: &[&str] = &["zero", "negative", "one", "balance", "balance+1"];
-const META: &[&str] = &["plain", "multi-byte", "decimals-0", "decimals-255", "decimals-256", "empty-name", "empty-symbol", "non-utf8-name", "asset-style"];
+const META: &[&str] = &["plain", "multi-byte", "decimals-0", "decimals-255", "decimals-256", "decimals-263", "decimals-u32-max", "empty-name", "empty-symbol", "non-utf8-name", "non-utf8-symbol", "asset-style"];
 
 fn str_of(u: &mut U, t: &Address, which: &'static str) -> Option<Vec<u8>> {
     let t = t.clone();
@@ -137,6 +137,16 @@ pub fn run(ctx: &Ctx, rep: &mut Report) {
             }
         }
         for _ in 0..24 {
+            if rng.chance(1, 10) {
+                let d = rng.ledger_jump();
+                if w.u.advance(d) {
+                    rep.count("advance-ledger");
+                    if let Some(dd) = w.check_registry() {
+                        rep.violation("registry-or-trust-changed-by-passing-time", dd);
+                        break;
+                    }
+                }
+            }
             let canonical = rng.chance(1, 2);
             // single-deviation style: one dimension deviates, the others conform (or all random)
             let focus = *rng.pick(&["none", "none", "caller", "caller", "dest", "dest", "gas", "gas", "meta", "meta", "random"]);
@@ -185,6 +195,9 @@ pub fn run(ctx: &Ctx, rep: &mut Report) {
                         "decimals-0" => (b"P".to_vec(), b"P".to_vec(), 0),
                         "decimals-255" => (b"P".to_vec(), b"P".to_vec(), 255),
                         "decimals-256" => (b"P".to_vec(), b"P".to_vec(), 256),
+                        "decimals-263" => (b"P".to_vec(), b"P".to_vec(), 263),
+                        "decimals-u32-max" => (b"P".to_vec(), b"P".to_vec(), u32::MAX),
+                        "non-utf8-symbol" => (b"P".to_vec(), vec![0xc0, 0x80], 6),
                         "empty-name" => (vec![], b"P".to_vec(), 6),
                         "empty-symbol" => (b"P".to_vec(), vec![], 6),
                         "non-utf8-name" => (vec![0xff, 0xfe, 0x41], b"P".to_vec(), 6),
